@@ -3,6 +3,7 @@ import warnings
 warnings.filterwarnings('ignore')
 import math
 import os
+import pathlib
 import random
 import tempfile
 
@@ -260,7 +261,7 @@ def check(run):
                 custom = [TaggedOdometry]
                 stats['graphs_with_user_subclass_edges'] = stats.get('graphs_with_user_subclass_edges', 0) + 1
             try:
-                g.to_g2o(path)
+                g.to_g2o(path if n % 2 else pathlib.Path(path))            # (str or pathlib.Path, alternately)
             except Exception as ex:  # noqa
                 raised = ex
             run.count(key=n, nontrivial=True)
@@ -327,7 +328,7 @@ def check(run):
                 pass
             for cyc in range(1, (6 if n % 5 == 0 else 3)):
                 try:
-                    g2 = Graph.from_g2o(path, custom) if custom else Graph.from_g2o(path)
+                    g2 = Graph.from_g2o(path, custom) if custom else Graph.from_g2o(pathlib.Path(path) if (n + cyc) % 2 else path)
                 except Exception as ex:  # noqa
                     run.violation(dict(key, outcome='import-raised'), 'import of an exported graph raised %r (cycle %d)' % (ex, cyc), dict(abstract=c['g']))
                     break
